@@ -97,6 +97,46 @@ def homogeneity_ob(base, key):
               f"{T}::TruncatedGaussianMeasure.integrate", group="homogeneity")
 
 
+def closed_form_ob(base, key):
+    """integrals of 1, x, x^2 over [a,b] against u: mass * textbook truncated-normal expressions in Phi / phi."""
+    def run():
+        nf.ST.generic_nonzero = True
+        I = build.new_interp()
+        t, u, a, b = make_trunc(I, base)
+        got = I.call_method(t, "integrate", [key])
+        from .common import measure_reference
+        kind = "pdf" if base == "pdf" else base
+        mu, Sig, mass = measure_reference(u, kind)
+        mu1 = mu                                                   # [R,1]
+        S1 = Val(Sig.axes[:2], Sig.terms)                           # [R,1]  (variance)
+        Lam = nf.inverse(Sig)[0]
+        L1 = Val(Lam.axes[:2], Lam.terms)
+        sl, sg = nf.elementwise("Sqrt", L1), nf.elementwise("Sqrt", S1)
+        al = nf.mul(nf.add(a, mu1, -1), sl)
+        be = nf.mul(nf.add(b, mu1, -1), sl)
+        Pa, Pb = nf.elementwise("Phi", al), nf.elementwise("Phi", be)
+        pa, pb = nf.elementwise("phi", al), nf.elementwise("phi", be)
+        Z = nf.add(Pb, Pa, -1)
+        dphi = nf.add(pa, pb, -1)
+        if key == "1":
+            ref = Val(Z.axes[:1], Z.terms)
+        elif key == "x":
+            ref = nf.add(nf.mul(mu1, Z), nf.mul(dphi, sg))
+        else:
+            t1 = nf.mul(S1, nf.add(Z, nf.add(nf.mul(be, pb), nf.mul(al, pa), -1), -1))
+            ref = nf.add(nf.add(t1, nf.mul(nf.mul(mu1, mu1), Z)), nf.scale(nf.mul(nf.mul(mu1, sg), dphi), 2))
+        if mass is not None:
+            k = len(ref.axes)
+            ref = nf.mul(nf.expand_dims(mass, ["k"] + [None] * (k - 1)), ref)
+        d = nf.diff(got, ref, what=f"integrate({key!r})")
+        if d and nf.zero_mod_recip(nf.add(got, ref, -1)):
+            d = []
+        return d, dict(funcs=funcs_of(I))
+    return Ob(f"closed-form/{base}/{key}", run,
+              "integrate('1'|'x'|'x**2') == mass * {Z, mu Z + (phi(alpha)-phi(beta)) sigma, sigma^2 (Z - beta phi(beta) + alpha phi(alpha)) + mu^2 Z + 2 mu sigma (phi(alpha)-phi(beta))}, Z = Phi(beta)-Phi(alpha), alpha,beta standardised limits",
+              f"{T}::TruncatedGaussianMeasure.integrate", group="closed-form")
+
+
 def pdf_ob(base, via):
     def run():
         I = build.new_interp()
@@ -138,10 +178,12 @@ def obligations(tier):
                 obs.append(homogeneity_ob(base, key))
         for via in ("get_density", "direct"):
             obs.append(pdf_ob(base, via))
+        for key in ("1", "x", "x**2"):
+            obs.append(closed_form_ob(base, key))
     return obs
 
 
-FLOORS = {"group:table": 1, "group:indicator": 6, "group:homogeneity": 6, "group:pdf": 6}
+FLOORS = {"group:table": 1, "group:indicator": 6, "group:homogeneity": 6, "group:pdf": 6, "group:closed-form": 9}
 LEVEL = "other"
 EXPLANATION = ("Partial: dispatch table, support indicator, degree-one homogeneity of integrate('1'|'x'|'x**2') in the base mass and that the normalised variant evaluates the "
                "NORMALISED base density, for finite generic limits. The cdf/pdf closed forms (numerical approximation in misc.normal_cdf), the x**k recursion (lax.scan), "
